@@ -439,7 +439,7 @@ func (s *SymDense) SymOuterK(alpha float64, x Matrix) {
 //
 //	m = a + alpha * (x * yᵀ + y * xᵀ)
 func (s *SymDense) RankTwo(a Symmetric, alpha float64, x, y Vector) {
-	n := s.mat.N
+	n := a.SymmetricDim()
 	if x.Len() != n {
 		panic(ErrShape)
 	}
